@@ -235,6 +235,20 @@ def lambda_templates():
                 ("let", "l2", ("calllam", V("l1"), [N(100)])), ("let", "l3", ("calllam", V("l2"), [y]))],
                ("tuple", [("calllam", V("l3"), [N(1)]), V("a")]))
     ts.append(T("nested_capture_three_levels", [fn("vf", [("x", "int"), ("y", "int")], ("tuple", ["int", "int"]), body)], "vf", ["int", "int"], {"C19"}))
+    # the lambda reassigns its captured copy and reads it: every call starts from the value captured at creation, the outer variable is untouched
+    body = blk([("var", "a", x),
+                ("let", "f", ("lam", [("p", "int")], blk([("assign", V("a"), "=", bin_("+", V("a"), N(10)))], bin_("+", V("a"), V("p"))))),
+                ("assign", V("a"), "=", y)],
+               ("tuple", [("calllam", V("f"), [N(1)]), ("calllam", V("f"), [N(2)]), V("a")]))
+    ts.append(T("assign_captured_and_read", [fn("vf", [("x", "int"), ("y", "int")], ("tuple", ["int", "int", "int"]), body)], "vf", ["int", "int"], {"C19"}))
+    # (a lambda that only assigns to an outer variable, `(p) -> { a = 7; p }`, crashes the compiler: C03 territory, not claimed)
+    # the captured variable is reassigned and then used only by a nested lambda
+    body = blk([("var", "base", x),
+                ("let", "mk", ("lam", [("p", "int")], blk([("assign", V("base"), "=", bin_("+", V("base"), V("p")))], ("lam", [("q", "int")], bin_("+", V("base"), V("q")))))),
+                ("assign", V("base"), "=", N(-5)),
+                ("let", "g", ("calllam", V("mk"), [y]))],
+               ("tuple", [("calllam", V("g"), [N(1)]), ("calllam", V("g"), [N(2)]), V("base")]))
+    ts.append(T("assign_captured_then_nested_use", [fn("vf", [("x", "int"), ("y", "int")], ("tuple", ["int", "int", "int"]), body)], "vf", ["int", "int"], {"C19"}))
     return ts
 
 
